@@ -57,7 +57,7 @@ def pipe_plan(pid, tier, seed):
     return qs
 
 def plan(tier, seed):
-    return sched_plan('C03', tier, seed) + pipe_plan('C03', tier, seed)
+    return sched_plan('C03', tier, seed, markbusy=True) + pipe_plan('C03', tier, seed)
 
 META = {
     'level': 'model_checking',
@@ -73,4 +73,4 @@ META = {
 }
 
 def REPRESENTATIVE(tier):
-    return [pipe_query('C03', 4, 0xffff, (0, 1, 2, 3), (0, 1, 2, 3), (1, 3, 3, 2, 2), (), (0, 0, 2, 0)), sched_query('C03', 3, 2, 11)]
+    return [pipe_query('C03', 4, 0xffff, (0, 1, 2, 3), (0, 1, 2, 3), (1, 3, 3, 2, 2), (), (0, 0, 2, 0)), sched_query('C03', 3, 2, 11, markbusy=True)]
